@@ -26,6 +26,9 @@ pub struct OptCase {
     /// Some("ws" | "http" | "https"): the rule's pattern is the scheme-only pattern `|<scheme>://`
     #[serde(default)]
     pub scheme_form: Option<String>,
+    /// the rendered option list is rotated by this many places (option order carries no meaning)
+    #[serde(default)]
+    pub rot: usize,
 }
 
 impl Case for OptCase {
@@ -34,28 +37,28 @@ impl Case for OptCase {
         if let Some(rs) = &self.reqs {
             if rs.len() > 1 {
                 for r in rs {
-                    v.push(OptCase { ast: self.ast.clone(), reqs: Some(vec![r.clone()]), scheme_form: self.scheme_form.clone() });
+                    v.push(OptCase { ast: self.ast.clone(), reqs: Some(vec![r.clone()]), scheme_form: self.scheme_form.clone(), rot: self.rot });
                 }
             }
             for i in 0..self.ast.types.len() {
                 let mut a = self.ast.clone();
                 a.types.remove(i);
-                v.push(OptCase { ast: a, reqs: self.reqs.clone(), scheme_form: self.scheme_form.clone() });
+                v.push(OptCase { ast: a, reqs: self.reqs.clone(), scheme_form: self.scheme_form.clone(), rot: self.rot });
             }
             for i in 0..self.ast.domains.len() {
                 let mut a = self.ast.clone();
                 a.domains.remove(i);
-                v.push(OptCase { ast: a, reqs: self.reqs.clone(), scheme_form: self.scheme_form.clone() });
+                v.push(OptCase { ast: a, reqs: self.reqs.clone(), scheme_form: self.scheme_form.clone(), rot: self.rot });
             }
             if self.ast.party.is_some() {
                 let mut a = self.ast.clone();
                 a.party = None;
-                v.push(OptCase { ast: a, reqs: self.reqs.clone(), scheme_form: self.scheme_form.clone() });
+                v.push(OptCase { ast: a, reqs: self.reqs.clone(), scheme_form: self.scheme_form.clone(), rot: self.rot });
             }
             if self.ast.important {
                 let mut a = self.ast.clone();
                 a.important = false;
-                v.push(OptCase { ast: a, reqs: self.reqs.clone(), scheme_form: self.scheme_form.clone() });
+                v.push(OptCase { ast: a, reqs: self.reqs.clone(), scheme_form: self.scheme_form.clone(), rot: self.rot });
             }
         }
         v
@@ -64,19 +67,29 @@ impl Case for OptCase {
 
 const HOST: &str = "sub.target-site.com";
 
-fn rule_line_form(a: &OptAst, scheme_form: &Option<String>) -> String {
+fn render_rot(a: &OptAst, rot: usize) -> String {
+    let o = a.render();
+    let mut parts: Vec<&str> = o.split(',').collect();
+    if parts.len() > 1 {
+        let r = rot % parts.len();
+        parts.rotate_left(r);
+    }
+    parts.join(",")
+}
+
+fn rule_line_form(a: &OptAst, scheme_form: &Option<String>, rot: usize) -> String {
     match scheme_form {
         Some(sf) => {
-            let o = a.render();
+            let o = render_rot(a, rot);
             format!("{}|{}://{}{}", if a.exception { "@@" } else { "" }, sf, if o.is_empty() { "" } else { "$" }, o)
         }
-        None => rule_line(a),
+        None => rule_line(a, rot),
     }
 }
 
-fn rule_line(a: &OptAst) -> String {
+fn rule_line(a: &OptAst, rot: usize) -> String {
     let pat = if a.host_caret_form { format!("||{}^", HOST) } else { "/cpath/".to_string() };
-    let o = a.render();
+    let o = render_rot(a, rot);
     format!("{}{}{}{}", if a.exception { "@@" } else { "" }, pat, if o.is_empty() { "" } else { "$" }, o)
 }
 
@@ -99,6 +112,10 @@ fn source_url(third: bool, source_host: &Option<String>) -> String {
 
 fn grid() -> Vec<(String, String, bool, Option<String>)> {
     let mut v = vec![];
+    for (t, s) in [("script", "HTTPS"), ("image", "Http"), ("other", "WSS"), ("websocket", "Ws"), ("document", "hTTps"), ("xhr", "FTP")] {
+        v.push((t.to_string(), s.to_string(), false, Some("other.target-site.com".to_string())));
+        v.push((t.to_string(), s.to_string(), true, Some("unrelated.org".to_string())));
+    }
     for t in REQ_TYPES {
         for s in SCHEMES {
             v.push((t.to_string(), s.to_string(), false, Some("other.target-site.com".to_string())));
@@ -109,7 +126,7 @@ fn grid() -> Vec<(String, String, bool, Option<String>)> {
 }
 
 pub fn check_case(c: &OptCase, obs: &mut Obs) -> Result<(), String> {
-    let line = rule_line_form(&c.ast, &c.scheme_form);
+    let line = rule_line_form(&c.ast, &c.scheme_form, c.rot);
     let f = match parse_filter(&line, true, std_opts()) {
         Ok(ParsedFilter::Network(f)) => f,
         _ => {
@@ -133,8 +150,10 @@ pub fn check_case(c: &OptCase, obs: &mut Obs) -> Result<(), String> {
     // in the serialized rule; they must restrict matching exactly as before)
     let mut engine_rt = adblock::Engine::new(false);
     engine_rt.deserialize(&engine.serialize_raw().map_err(|e| format!("serialize: {:?}", e))?).map_err(|e| format!("deserialize of own bytes: {:?}", e))?;
-    for (raw_type, scheme, third, source_host) in reqs {
-        let url = url_for(scheme);
+    for (raw_type, scheme_as_written, third, source_host) in reqs {
+        // schemes are case-insensitive: the URL is written as generated, the reference sees lower case
+        let url = url_for(scheme_as_written);
+        let scheme = &scheme_as_written.to_ascii_lowercase();
         let src = source_url(*third, source_host);
         let Ok(req) = Request::new(&url, &src, raw_type) else {
             obs.label("unparsable-request");
@@ -161,7 +180,7 @@ pub fn check_case(c: &OptCase, obs: &mut Obs) -> Result<(), String> {
             if got != want_rule {
                 return Err(format!(
                     "REPLAY_CASE:{}\nrule {:?}: request (type {:?}, scheme {}, third-party {}, source {:?}) reference says applies={}, NetworkFilter::matches says {}",
-                    serde_json::to_string(&OptCase { ast: c.ast.clone(), reqs: Some(vec![(raw_type.clone(), scheme.clone(), *third, source_host.clone())]), scheme_form: c.scheme_form.clone() }).unwrap(),
+                    serde_json::to_string(&OptCase { ast: c.ast.clone(), reqs: Some(vec![(raw_type.clone(), scheme_as_written.clone(), *third, source_host.clone())]), scheme_form: c.scheme_form.clone(), rot: c.rot }).unwrap(),
                     line, raw_type, scheme, third, source_host, want_rule, got
                 ));
             }
@@ -204,7 +223,7 @@ pub fn check_case(c: &OptCase, obs: &mut Obs) -> Result<(), String> {
         if engine_says != want {
             return Err(format!(
                 "REPLAY_CASE:{}\nrule {:?}: request (type {:?}, scheme {}, third-party {}, source {:?}) reference says applies={}, {} says {} ({:?})",
-                serde_json::to_string(&OptCase { ast: c.ast.clone(), reqs: Some(vec![(raw_type.clone(), scheme.clone(), *third, source_host.clone())]), scheme_form: c.scheme_form.clone() }).unwrap(),
+                serde_json::to_string(&OptCase { ast: c.ast.clone(), reqs: Some(vec![(raw_type.clone(), scheme_as_written.clone(), *third, source_host.clone())]), scheme_form: c.scheme_form.clone(), rot: c.rot }).unwrap(),
                 line, raw_type, scheme, third, source_host, want, how, engine_says, Verdict::of(&b)
             ));
         }
@@ -330,7 +349,7 @@ fn decode_domains(t: &mut Tape) -> OptCase {
         // source above is third-party; absent sources are third-party as well
         reqs.push((t.choose(&["script", "image", "xhr", "document", "other"]).to_string(), t.choose(&["https", "http", "wss"]).to_string(), true, src));
     }
-    OptCase { ast, reqs: Some(reqs), scheme_form: None }
+    OptCase { ast, reqs: Some(reqs), scheme_form: None, rot: t.pick(4) }
 }
 
 // ---- groups: several domain-restricted rules in ONE token bucket of an optimised engine ---------
@@ -518,11 +537,11 @@ fn decode_combos(t: &mut Tape) -> OptCase {
     for _ in 0..(6 + t.pick(8)) {
         reqs.push(g[t.pick(g.len())].clone());
     }
-    OptCase { ast, reqs: Some(reqs), scheme_form }
+    OptCase { ast, reqs: Some(reqs), scheme_form, rot: t.pick(4) }
 }
 
 pub fn check(ctx: &mut Ctx) {
-    ctx.rule = "exhaustive: every type-option set of size <= 2 over the 11 resource types with all sign combinations, all aliases, document combinations and a few triples (x 9 party spellings x exception x {none, csp, removeparam} x {plain pattern, ||host^ form} x important) against the full request grid of 26 request-type strings x 6 schemes x {first, third party}; combos: random type sets with one or two (possibly contradictory) party options and scheme-only patterns ('|ws://', '|http://', '|https://') against random grid requests; random: domain=/~domain lists (1-5 entries, duplicates, public-suffix entries) against listed / sub- / parent / look-alike / unrelated / absent sources, including sources up to 13 labels below a listed entry; group: 2-6 rules `/cpath/slotNN$domain=...` that share one token bucket, domain lists of 0-31 entries over a pool of 8-47 domains (1 in 3 with two equal-length lists), optimisation on (3 in 4) or off, probed per rule from domains listed by it or by its neighbours (expected: exactly the probed rule's own list decides). Observed at NetworkFilter::matches, at a single-rule engine (matched / exception / csp / rewritten_url) and at the same engine after a serialize->deserialize round trip. Non-trivial = the reference says the rule applies to the request.".into();
+    ctx.rule = "exhaustive: every type-option set of size <= 2 over the 11 resource types with all sign combinations, all aliases, document combinations and a few triples (x 9 party spellings x exception x {none, csp, removeparam} x {plain pattern, ||host^ form} x important) against the full request grid of 26 request-type strings x 6 schemes x {first, third party} (+ 12 requests whose scheme is written in upper/mixed case); combos: random type sets with one or two (possibly contradictory) party options and scheme-only patterns ('|ws://', '|http://', '|https://') against random grid requests; random: domain=/~domain lists (1-5 entries, duplicates, public-suffix entries) against listed / sub- / parent / look-alike / unrelated / absent sources, including sources up to 13 labels below a listed entry; group: 2-6 rules `/cpath/slotNN$domain=...` that share one token bucket, domain lists of 0-31 entries over a pool of 8-47 domains (1 in 3 with two equal-length lists), optimisation on (3 in 4) or off, probed per rule from domains listed by it or by its neighbours (expected: exactly the probed rule's own list decides). Observed at NetworkFilter::matches, at a single-rule engine (matched / exception / csp / rewritten_url) and at the same engine after a serialize->deserialize round trip. Non-trivial = the reference says the rule applies to the request.".into();
     ctx.assumptions = vec![
         "csp_report maps to no resource-type option; websocket schemes force the websocket type; exceptions also apply to documents".into(),
         "option combinations the parser rejects (csp with types, removeparam exception) are skipped and counted".into(),
@@ -535,6 +554,7 @@ pub fn check(ctx: &mut Ctx) {
                 ast: OptAst { types: vec![("other".into(), false)], party: None, party2: None, domains: vec![], important: false, exception: false, modifier: Modifier::None, host_caret_form: false },
                 reqs: Some(vec![("speculative".into(), "ws".into(), true, Some("unrelated.org".into()))]),
                 scheme_form: Some("ws".into()),
+                rot: 0,
             },
             &mut Obs::default(),
         )
@@ -545,7 +565,7 @@ pub fn check(ctx: &mut Ctx) {
     let stride = ctx.tier.pick(4u64, 1u64);
     let seed = ctx.seed;
     let n = total / stride;
-    run_indexed(ctx, "grid", n, &|k| nth_ast(((k * stride) + (seed % stride)) % total, &sets).map(|ast| OptCase { ast, reqs: None, scheme_form: None }), &check_case);
+    run_indexed(ctx, "grid", n, &|k| nth_ast(((k * stride) + (seed % stride)) % total, &sets).map(|ast| OptCase { ast, reqs: None, scheme_form: None, rot: (k % 3) as usize }), &check_case);
     ctx.exhaustive = false;
     ctx.extra.insert("grid_part".into(), json!({"rules_total": total, "rules_enumerated": n, "stride": stride, "requests_per_rule": grid().len(), "exhaustive": stride == 1}));
     let n = ctx.tier.pick(300_000, 3_000_000);
